@@ -46,6 +46,7 @@ BUDGET = 2.0         # seconds: the awaiting caller must be released within this
 SDL = """
 type Item { id: ID  name: String  slow: String  nn: String!  sub: Item  kids: [Item] }
 type Query { a: String  b: String  nn: String!  hero: Item  other: Item  items: [Item]  gen: [Item]  strs: [String] }
+type Mutation { a: String  b: String  c: String  nn: String!  hero: Item  items: [Item]  gen: [Item] }
 type Subscription { ev: Item }
 """
 
@@ -588,8 +589,13 @@ async def drive(scen, sched_seed, stop, recorder=None):
                 out.payloads += 1
 
         # ---- judgement: quiescence
-        if out.stopped is None:
-            # no stop by the consumer (complete run, or only a resolver / source failed): the world goes
+        # A payload stream that ended by itself (hasNext false / StopAsyncIteration) is a stop point of its
+        # own kind: when fragments FAILED, sibling work of theirs may still be in flight; like after a stop
+        # by the consumer it must have been cancelled and settled by the time the consumer is released
+        # (only work the executor settles in background_futures may still wait for its resolvers).
+        ended_by_itself = out.stopped is None and out.completed and out.initial_kind == "incremental"
+        if out.stopped is None and not ended_by_itself:
+            # no stop by the consumer (single result, subscription, or the run broke off): the world goes
             # on, the resolvers that are still in flight answer (work the library settles in the background
             # on a failure path is by design not cancelled but awaited)
             for _ in range(200):
@@ -604,7 +610,7 @@ async def drive(scen, sched_seed, stop, recorder=None):
             await _settle(DRAIN * 3)
             left = [t for t in asyncio.all_tasks(loop) if t is not me and not t.done()]
         out.tolerated_background = 0
-        if left and out.stopped is not None:
+        if left and (out.stopped is not None or ended_by_itself):
             # Work that the executor settles in the background (Executor.background_futures; by design it is
             # awaited, not cancelled, and the hook waits for it) may still wait for resolvers in flight.
             # Only tasks reachable from those futures are tolerated here; they must settle in phase 2.
@@ -1422,6 +1428,38 @@ def sequences(alphabet, n):
 def extra_scenarios():
     """Templates added for specific stop points (requested regression scenarios)."""
     S = []
+    # the payload stream ends because fragments FAIL while sibling execution groups are still in flight:
+    # overlapping fragments sharing a failing non-null field, each with private work (plain and nested)
+    for coro in (False, True):
+        tag = "-coro" if coro else ""
+        S.append(dict(name=f"defer-overlap-shared-nonnull-raises{tag}", kind="incr",
+                      doc="{ a ... @defer(label: \"X\") { nn b } ... @defer(label: \"Y\") { nn hero { name } } }",
+                      root={"a": "x", "nn": G(err="boom"), "b": G("y", coro=coro),
+                            "hero": {"name": G("n", coro=coro)}}))
+        S.append(dict(name=f"defer-overlap-nested-shared-nonnull-raises{tag}", kind="incr",
+                      doc="{ hero { id ... @defer(label: \"X\") { nn slow } ... @defer(label: \"Y\") { nn sub { name } } "
+                          "... @defer(label: \"Z\") { name } } }",
+                      root={"hero": {"id": 1, "nn": G(err="boom"), "slow": G("s", coro=coro), "name": G("n", coro=coro),
+                                     "sub": {"name": G("sn", coro=coro)}}}))
+    for sk in ("agen", "aiter"):
+        S.append(dict(name=f"defer-overlap-shared-nonnull-raises-stream-{sk}", kind="incr",
+                      doc="{ ... @defer(label: \"X\") { nn b } ... @defer(label: \"Y\") { nn items @stream(initialCount: 0) { id } } }",
+                      root={"nn": G(err="boom"), "b": G("y"),
+                            "items": SRC(sk, [item(0), item(1)], gated=True)}))
+        # serial execution (mutation): a streamed root field has pulled its initial items before later root
+        # fields run; every quiescent point while those are in flight is an abort point
+        for n0 in (1, 2):
+            S.append(dict(name=f"mutation-stream{n0}-{sk}-then-fields", kind="incr",
+                          doc="mutation { items @stream(initialCount: %d) { id } a b c }" % n0,
+                          root={"items": SRC(sk, [item(0), item(1), item(2)]), "a": G("x"), "b": G("y"), "c": G("z")}))
+        S.append(dict(name=f"mutation-stream-gated-{sk}-then-fields", kind="incr",
+                      doc="mutation { items @stream(initialCount: 1) { id name } a b }",
+                      root={"items": SRC(sk, [item(0), item(1, name=G("n1")), item(2)], gated=True),
+                            "a": G("x", coro=True), "b": G("y")}))
+        S.append(dict(name=f"mutation-defer-and-list-{sk}", kind="incr",
+                      doc="mutation { hero { id ... @defer { name } } gen { id } a b }",
+                      root={"hero": {"id": 1, "name": G("n")}, "gen": SRC(sk, [item(0), item(1)], gated=True),
+                            "a": G("x"), "b": G("y")}))
     for sk in ("agen", "aiter"):
         # the source raises while an EARLIER item is still pending; a deferred fragment gives the consumer a
         # payload boundary (aclose) while StreamItemQueue._run waits for that item
@@ -1493,10 +1531,27 @@ def random_scenario(rng, i):
         n = rng.randint(1, 3)
         root["gen"] = SRC(k, items(n), gated=True, raise_at=rng.choice([None, None, n - 1]), name="gen")
         parts.append("gen { id name }")
+    if rng.random() < 0.35:
+        # overlapping fragments sharing a field (often a failing non-null one), each with private work
+        shared = rng.choice(["nn", "nn", "a"])
+        root.setdefault(shared, G(err="boom") if rng.random() < 0.6 else gate_or("k"))
+        root.setdefault("b", gate_or("y", 0.05))
+        root.setdefault("a", gate_or("x", 0.05))
+        priv = rng.choice(["b", "other { name }", "other { slow ... @defer(label: \"Q\") { name } }"])
+        root.setdefault("other", {"name": gate_or("o", 0.05), "slow": gate_or("os", 0.05)})
+        parts.append("... @defer(label: \"X\") { %s b } ... @defer(label: \"Y\") { %s %s }" % (shared, shared, priv))
     if not parts:
         parts.append("a")
         root["a"] = G("x")
-    return dict(name=f"random-{i}", kind="incr", doc="{ " + " ".join(parts) + " }", root=root)
+    op = ""
+    if rng.random() < 0.25 and all(k in ("a", "b", "nn", "hero", "items", "gen") for k in root) \
+            and "other" not in " ".join(parts):
+        op = "mutation "      # serial execution of the root fields
+        for extra in ("a", "b"):
+            if extra not in parts:
+                parts.append(extra)
+                root.setdefault(extra, gate_or("x", 0.05))
+    return dict(name=f"random-{i}", kind="incr", doc=op + "{ " + " ".join(parts) + " }", root=root)
 
 
 def random_subscription(rng, i):
